@@ -3,6 +3,8 @@
 (checked out at /repo's HEAD) the demo passes on the pristine tree, fails with the change, and the
 existing suite (default features) still passes with the change."""
 import json, os, subprocess, sys, concurrent.futures as cf
+ROOT = os.environ.get("MUT_ROOT", "/tmp/mut")
+OFF = int(os.environ.get("MUT_OFFSET", "0"))
 
 def sh(cmd, cwd, timeout=1800):
     p = subprocess.run(cmd, cwd=cwd, shell=True, capture_output=True, text=True, timeout=timeout,
@@ -10,8 +12,8 @@ def sh(cmd, cwd, timeout=1800):
     return p.returncode, p.stdout + p.stderr
 
 def one(pid):
-    wt = "/tmp/mut/%s" % pid
-    out = "/tmp/mut/%s.out" % pid
+    wt = ROOT + "/%s" % pid
+    out = ROOT + "/%s.out" % pid
     res = []
     head = subprocess.run("git -C /repo rev-parse HEAD", shell=True, capture_output=True, text=True).stdout.strip()
     sh("git checkout -q -- . && git clean -fdq -e target -e Cargo.lock && git checkout -q --detach %s" % head, wt)
@@ -20,7 +22,7 @@ def one(pid):
         demo = "%s/demo%d.rs" % (out, k)
         if not (os.path.exists(diff) and os.path.exists(demo)):
             continue
-        r = {"id": "%s-%d" % (pid, k)}
+        r = {"id": "%s-%d" % (pid, k + OFF)}
         sh("git checkout -q -- . && git clean -fdq -e target -e Cargo.lock", wt)
         rc, o = sh("git apply --check %s" % diff, wt)
         r["applies"] = rc == 0
@@ -54,8 +56,8 @@ with cf.ThreadPoolExecutor(8) as ex:
             print(json.dumps({k: v for k, v in r.items() if k not in ("pristine_tail",) or not ok}))
             allr.append(r)
 old = {}
-if os.path.exists("/tmp/mut/validation.json"):
-    old = {r["id"]: r for r in json.load(open("/tmp/mut/validation.json"))}
+if os.path.exists(ROOT + "/validation.json"):
+    old = {r["id"]: r for r in json.load(open(ROOT + "/validation.json"))}
 old.update({r["id"]: r for r in allr})
-json.dump(list(old.values()), open("/tmp/mut/validation.json", "w"), indent=1)
+json.dump(list(old.values()), open(ROOT + "/validation.json", "w"), indent=1)
 print("confirmed", sum(r["confirmed"] for r in allr), "of", len(allr))
